@@ -33,8 +33,10 @@ Proof.
   simpl. intro H. apply andb_true_iff in H as [H _]. destruct prev as [a|]; [|reflexivity].
   unfold adj in H. destruct (ends_operand a) eqn:Ee; [discriminate|].
   apply andb_true_iff in H as [_ H]. destruct (is_update_pre a) eqn:Eu; [discriminate|].
-  destruct a as [s|s|b' f'|o|s| | | | | |]; try discriminate.
+  destruct a as [s|s|b' f'|o|s| | | | | | | |]; try discriminate.
   - apply goal_op; assumption.
+  - reflexivity.
+  - reflexivity.
   - reflexivity.
   - reflexivity.
   - reflexivity.
@@ -43,7 +45,7 @@ Qed.
 
 Lemma ends_div a : item_ok a -> ends_operand a = true -> regex_ok (ctx_after (last_tok a)) = false.
 Proof.
-  destruct a as [s|s|b f|o|s| | | | | |]; simpl; intros Hi He; try reflexivity; try discriminate.
+  destruct a as [s|s|b f|o|s| | | | | | | |]; simpl; intros Hi He; try reflexivity; try discriminate.
   - destruct Hi as [_ H]. exact H.
   - destruct o; try discriminate; reflexivity.
   - destruct Hi as [_ H]. exact H.
@@ -58,7 +60,7 @@ Proof.
   destruct prev as [a|]; [|simpl in H; rewrite Hk in H; discriminate].
   unfold adj in H. destruct (ends_operand a) eqn:Ee.
   - apply ends_div; [apply Hp; reflexivity | exact Ee].
-  - simpl in H. rewrite Hk in H. discriminate.
+  - destruct a; simpl in H; rewrite ?Hk in H; discriminate.
 Qed.
 
 (* ---- "<" "!" : the two characters after the "!" are never "--" ---- *)
@@ -67,7 +69,7 @@ Proof. destruct o; simpl; intros; try discriminate; auto. Qed.
 
 Lemma starts_hd45 k : item_ok k -> starts_operand k = true -> hdz (text k) = 45 -> k = IOp UNeg \/ k = IOp UPreDec.
 Proof.
-  intros Hk Hs H45. destruct k as [s|s|b f|o|s| | | | | |]; try discriminate.
+  intros Hk Hs H45. destruct k as [s|s|b f|o|s| | | | | | | |]; try discriminate.
   - destruct Hk as [Hw _]. destruct (word_shape_hd s Hw) as [_ Hs']. simpl in H45. rewrite H45 in Hs'. discriminate.
   - destruct (num_last s Hk) as [_ Hd]. simpl in H45. rewrite H45 in Hd. discriminate.
   - simpl in Hs. destruct (op_kind o) eqn:Ek; try discriminate.
@@ -95,7 +97,7 @@ Proof.
   inversion Hr as [|? ? Hk Hr'']; subst.
   simpl in Hc. apply andb_true_iff in Hc as [Hadj Hc].
   assert (Hso : starts_operand k = true).
-  { unfold adj in Hadj. simpl in Hadj. apply andb_true_iff in Hadj as [H _]. exact H. }
+  { unfold adj in Hadj. simpl in Hadj. apply andb_true_iff in Hadj as [H _]. rewrite orb_false_r in H. exact H. }
   pose proof (render_hd mw st2 k r'' Hk) as Hh. rewrite E in Hh. simpl in Hh.
   destruct (pre_sp mw st2 k) eqn:Epk; [discriminate|].
   destruct (starts_hd45 k Hk Hso (eq_sym Hh)) as [Ek|Ek]; subst k.
@@ -109,7 +111,7 @@ Proof.
     inversion Hr'' as [|? ? Hl Hr3]; subst.
     simpl in Hc. apply andb_true_iff in Hc as [Hadj2 _].
     assert (Hso2 : starts_operand l = true).
-    { unfold adj in Hadj2. simpl in Hadj2. apply andb_true_iff in Hadj2 as [H _]. exact H. }
+    { unfold adj in Hadj2. simpl in Hadj2. apply andb_true_iff in Hadj2 as [H _]. rewrite orb_false_r in H. exact H. }
     pose proof (render_hd mw st3 l r3 Hl) as Hh2. rewrite E' in Hh2. simpl in Hh2.
     destruct (pre_sp mw st3 l) eqn:Epl; [discriminate|].
     destruct (starts_hd45 l Hl Hso2 (eq_sym Hh2)) as [El|El]; subst l;
@@ -156,7 +158,7 @@ Proof.
   intros Hp Hi Hr Hc R.
   pose proof (need_holds mw prev st i r Hi Hr Hc) as N.
   rewrite <- (hdz_rest mw _ _ r Hr) in N. fold R in N.
-  destruct i as [s|s|b f|o|s| | | | | |].
+  destruct i as [s|s|b f|o|s| | | | | | | |].
   - destruct N as [N|[X _]]; [|discriminate]. simpl in N. apply andb_true_iff in N as [N N92].
     apply negb_true_iff in N. apply negb_true_iff in N92.
     apply lex1_word; [destruct Hi; assumption | apply nohead_of_hdz; exact N | apply nohead_of_hdz; exact N92].
@@ -229,6 +231,13 @@ Proof.
     apply punct_follow_char; try reflexivity; try exact N; simpl; discriminate.
   - destruct N as [N|[X _]]; [|discriminate]. simpl in N. apply negb_true_iff in N.
     apply punct_follow_char; try reflexivity; try exact N; simpl; discriminate.
+  - (* new *)
+    destruct N as [N|[X _]]; [|discriminate]. simpl in N. apply andb_true_iff in N as [N N92].
+    apply negb_true_iff in N. apply negb_true_iff in N92.
+    apply lex1_id; [|apply nohead_of_hdz; exact N | apply nohead_of_hdz; exact N92].
+    repeat split; try discriminate; reflexivity.
+  - destruct N as [N|[X _]]; [|discriminate]. simpl in N. apply negb_true_iff in N.
+    apply punct_follow_char; try reflexivity; try exact N; simpl; discriminate.
 Qed.
 
 (* ---- render_lex ---- *)
@@ -264,7 +273,7 @@ Proof.
       rewrite (IH (Some i) (after mw st i) (sp (post_sp mw i)) n Hp' Hr Hc' (sp_spaces _)).
       - simpl toks. rewrite (single_toks i Hs). reflexivity.
       - fold R. lia. }
-    destruct i as [s|s|b f|o|s| | | | | |]; try (apply Hsingle; exact I).
+    destruct i as [s|s|b f|o|s| | | | | | | |]; try (apply Hsingle; exact I).
     (* IDot: two tokens *)
     destruct L as [L1 L2]. simpl text in *.
     rewrite (lex_all_step n _ _ _ _ _ Hskip Hne2 L1).
